@@ -128,6 +128,25 @@ def cases(rng, tier):
 			else:
 				ops.append(('C',))
 		yield ('seq', tuple(ops))
+	for c in big_cases(rng, tier):
+		yield c
+
+
+def big_cases(rng, tier):
+	"""large collections (field counts around the numbers a limit or a cache size would have), read back in another letter case,
+	a repeated field received many times, long values"""
+	for count in (33, 65, 129, 300) + ((1025,) if tier == 'thorough' else ()):
+		names = [b'X-F%d-%s' % (i, rng.choice((b'a', b'B', b'cd'))) for i in range(count)]
+		ops = [('S', n, b'v%d' % i) for i, n in enumerate(names)]
+		ops += [('G', names[0].upper()), ('G', names[-1].lower()), ('H', names[count // 2].swapcase()), ('D', names[1].lower()), ('G', names[1]), ('C',)]
+		yield ('seq', tuple(ops))
+		block = b'\r\n'.join(rand_case(rng, 'X-Rep').encode() + b': ' + (b'%d' % i) for i in range(count))
+		yield ('seq', (('R', block), ('G', b'x-rep'), ('C',)))
+		block = b'\r\n'.join(n + b': ' + (b'%d' % i) for i, n in enumerate(names))
+		yield ('seq', (('R', block), ('G', names[-1].upper()), ('H', names[0].lower()), ('C',)))
+	for size in (1023, 4096, 8191, 8192, 65536):
+		yield ('seq', (('S', b'X-Long', b'a' * size), ('G', b'x-long'), ('C',)))
+		yield ('seq', (('R', b'X-Long: ' + b'b' * size + b'\r\nX-Next: 1'), ('G', b'X-LONG'), ('G', b'x-next'), ('C',)))
 
 
 def search(rng, res):
